@@ -46,7 +46,7 @@ theorem peelTree_spec {H : Mat} (G : GraphOK H) (sy : Vec) (sPar qPar : Nat → 
       ⟨S0, fun s => sy.getD s 0 != 0 && (decide (s < H.length) && decide (sPar s = (r : Int))),
         leaves, [], []⟩ = .ok st' := hrun
   unfold peelTree
-  simp only [hbuild', hrun']
+  simp only [tabGet_tabArr, tabGet2_tabArr2, hbuild', hrun']
   exact ⟨_, rfl, hnd, fun q hq => (hmem q hq).1, hbd⟩
 
 /-- what `Support.clustering()` must deliver for `peeling` to be correct (and does, see
